@@ -13,9 +13,20 @@ func init() {
 	vrtHarnesses["VerifC12Matching"] = VerifC12Matching
 }
 
-// c12Response: a terminal general response 0x0001 echoing serial es for command id.
-func c12Response(phone []byte, serial uint16, es uint16, id uint16) *vFrame {
-	return &vFrame{id: 0x0001, phone: phone, serial: serial, body: []byte{byte(es >> 8), byte(es), byte(id >> 8), byte(id), 0}}
+// c12Response: a minimal well-formed terminal response of the given type echoing serial es.
+func c12Response(kind int, phone []byte, serial uint16, es uint16, id uint16) *vFrame {
+	hi, lo := byte(es>>8), byte(es)
+	switch kind {
+	case 1: // 0x0104 parameter query response: serial, count 0
+		return &vFrame{id: 0x0104, phone: phone, serial: serial, body: []byte{hi, lo, 0}}
+	case 2: // 0x0805 camera response: serial, result, 0 IDs
+		return &vFrame{id: 0x0805, phone: phone, serial: serial, body: []byte{hi, lo, 0, 0, 0}}
+	case 3: // 0x1205 resource list: serial, 0 entries
+		return &vFrame{id: 0x1205, phone: phone, serial: serial, body: []byte{hi, lo, 0, 0, 0, 0}}
+	case 4: // 0x1206 upload complete notice: serial, result
+		return &vFrame{id: 0x1206, phone: phone, serial: serial, body: []byte{hi, lo, 0}}
+	}
+	return &vFrame{id: 0x0001, phone: phone, serial: serial, body: []byte{hi, lo, byte(id >> 8), byte(id), 0}}
 }
 
 // VerifC12Matching: one online terminal, up to two callers with outstanding commands, terminal
@@ -51,7 +62,8 @@ func VerifC12Matching() {
 		body := vrt_Bytes("cmdBody", 1)
 		vrtKSpecial("cmdsp", 0, vrtEscSpecial, body)
 		go func() {
-			res[i] = sm.write(NewActiveMessage(key, consts.JT808CommandType(cmds[i]), body, 1500*time.Millisecond))
+			// the second caller leaves the duration at 0 (= the default of 3 s)
+			res[i] = sm.write(NewActiveMessage(key, consts.JT808CommandType(cmds[i]), body, time.Duration(1-i)*1500*time.Millisecond))
 			done[i] = true
 		}()
 		vrt_Yield()
@@ -74,7 +86,8 @@ func VerifC12Matching() {
 	esb := vrt_Bytes("echoedSerial", 2)
 	vrtKSpecial("essp", 0, vrtEscSpecial, esb)
 	es := uint16(esb[0])<<8 | uint16(esb[1])
-	rsp := c12Response(hb.phone, 3, es, 0x8104)
+	rkind := vrt_Choose("responseType", 5) // 0x0001, 0x0104, 0x0805, 0x1205, 0x1206
+	rsp := c12Response(rkind, hb.phone, 3, es, 0x8104)
 	vNoSpecialChecksum(rsp)
 	vrt_ConnPushRead(conn, rsp.bytes())
 	vrt_Yield()
@@ -92,6 +105,7 @@ func VerifC12Matching() {
 			vrt_Assert(!done[i], "caller received a response that does not echo its own command's serial")
 		}
 	}
+	vrt_Cover("response-0x1206", rkind == 4 && matched == 0)
 	vrt_Cover("matched-first", matched == 0)
 	vrt_Cover("matched-second", matched == 1)
 	vrt_Cover("matched-none", matched == -1)
